@@ -49,6 +49,12 @@ def gen_param_value(r, family, depth=0):
         return r.choice(['{VA}/in', 'pre_{VB}', '{VA}{VB}', 'x{VA}y{VA}', '{VB}/{VA}/z', '{VC}'])
     if family == 'obj':
         t = r.random()
+        if t < 0.12:
+            kw = {'a': r.choice([1, 2, 'p'])}
+            # (two or more options make the representation depend on their order in the config: known finding F20, zone profile only)
+            for k_ in r.sample(['mode', 'lvl', 'tag'], r.choice([0, 1, 1]) if not _ZONE['optdict'] else r.choice([2, 3])):
+                kw[k_] = r.choice([0, 1, 'hi', [1]])
+            return {'class': 'tcw.objs.POpt', 'kwargs': kw}
         if t < 0.5:
             kw = {'a': gen_param_value(r, r.choice(['int', 'str', 'list']))}
             if r.random() < 0.5:
@@ -128,9 +134,20 @@ DEFAULT_KNOBS = {
 }
 
 
+_ZONE = {'optdict': False}
+
+
 def gen_world(r, knobs=None):
     k = dict(DEFAULT_KNOBS)
     k.update(knobs or {})
+    _ZONE['optdict'] = bool(k.get('zone_optdict'))
+    try:
+        return _gen_world(r, k)
+    finally:
+        _ZONE['optdict'] = False
+
+
+def _gen_world(r, k):
     names = list(TASK_NAMES)
     r.shuffle(names)
     ns_names = list(NS_NAMES)
